@@ -20,7 +20,8 @@ every exponent that is not a Number before it reaches float() (contradiction rul
 other non-numeric exponents to raise TypeError); (R3) every string the printer special-cases (dimensionless,
 (dimensionless), and the degree / delta-degree spellings) is, after the parser's own textual rewrites, a table symbol or
 listed alias of exactly the unit it stands for; (R4) every persistence path stores str(units) and every reader feeds the
-stored text to Unit()."""
+stored text to Unit().
+(R2, extended) exception effects of the structural walk: a Python-float power of two Python numbers (OverflowError), float() of a power with a symbolic exponent (TypeError for complex results) and an index on the possibly empty symbol name (IndexError) must be guarded or converted to UnitParseError; (R3, extended) the text printed for the unit with expression 1 must parse to the expression 1 (known finding); (R4, extended) savetxt joins the unit texts of the header with white space, which is what loadtxt splits at."""
 LEVEL_NOTE = """Undecided: print->parse identity on arbitrary output of sympy's printer (operator precedence, float
 formatting) and behaviour on fuzzed strings inside sympy's tokenizer/parser (covered only by the catch-all conversion
 rule)."""
